@@ -8,8 +8,8 @@
     `f32::to_radians(x) = x * (PI_f32 / 180.0f32)` (the quotient is computed in `f32`);
   * at ℝ (instance in `PaletteProofs/RealAngle.lean`) `pi` is the real number π — the exact reading of the code's intent;
     with the 16-digit rational instead, `into_cartesian ∘ from_cartesian` would not be the identity.
-  * `hypot`: Lean's `Float` has no `hypot`; the instances compute `m·sqrt((a/m)² + (b/m)²)` with `m = max |a| |b|` (no
-    spurious under/overflow, ≤ 3 ulps from libm's correctly rounded `hypot`; the driver allows 8), at ℝ `√(a² + b²)`.
+  * `hypot`: Lean's `Float` has no `hypot`; the `Float`/`Float32` instances transcribe glibc's `hypot`/`hypotf` (libm is a
+    parameter of the model with its behaviour written down, DESIGN §2.9-2), at ℝ it is `√(a² + b²)`.
 
   No Mathlib import (driver links this).
 -/
@@ -29,13 +29,35 @@ namespace Angle
 
 def piF64 : Float := 3.141592653589793   -- nearest double to π = `core::f64::consts::PI` (0x400921FB54442D18)
 
-def hypot64 (a b : Float) : Float :=
-  let m := if Float.abs a < Float.abs b then Float.abs b else Float.abs a
-  if m.isNormalB then
-    let x := a / m; let y := b / m
-    m * Float.sqrt (x * x + y * y)
-  else if a.isNaN || b.isNaN then (if a.isInf || b.isInf then Float.abs (if a.isInf then a else b) else a + b)
-  else m   -- 0, subnormal (error ≤ √2−1 relative, never a valid divisor anyway) or infinite
+/-- glibc ≥ 2.35 `__hypot` (sysdeps/ieee754/dbl-64/e_hypot.c, the kernel without `__FP_FAST_FMA`, which is what the generic
+    x86-64 build runs), transcribed: `sqrt(ax² + ay²)` followed by one correction step.  It is *not* always correctly rounded
+    (≈1 % of inputs are 1 ulp off), and the Okhsl/Okhsv inverse formulas amplify a 1-ulp change of the chroma beyond the
+    driver's 8 ulps, so the model follows the library bit for bit (checked: 0 mismatches on 2520 `Oklab → Oklch` cases). -/
+def hypotKernel64 (ax ay : Float) : Float :=
+  let h := Float.sqrt (ax * ax + ay * ay)
+  let t :=
+    if h ≤ 2.0 * ay then
+      let delta := h - ay
+      (ax * (2.0 * delta - ax), (delta - 2.0 * (ax - ay)) * delta)
+    else
+      let delta := h - ax
+      (2.0 * delta * (ax - 2.0 * ay), (4.0 * delta - ay) * ay + delta * delta)
+  h - (t.1 + t.2) / (2.0 * h)
+
+def hypot64 (x y : Float) : Float :=
+  if !x.isFinite || !y.isFinite then (if x.isInf || y.isInf then Float.abs (if x.isInf then x else y) else x + y) else
+  let x := Float.abs x
+  let y := Float.abs y
+  let ax := if x < y then y else x
+  let ay := if x < y then x else y
+  let scale : Float := Float.scaleB 1.0 (-600)
+  let eps : Float := Float.scaleB 1.0 (-54)
+  if ax > Float.scaleB 1.0 511 then
+    if ay ≤ ax * eps then ax + ay else hypotKernel64 (ax * scale) (ay * scale) / scale
+  else if ay < Float.scaleB 1.0 (-459) then
+    if ax ≥ ay / eps then ax + ay else hypotKernel64 (ax / scale) (ay / scale) * scale
+  else if ax ≥ ay / eps then ax + ay
+  else hypotKernel64 ax ay
 
 instance : Angle Float where
   pi := piF64
@@ -49,7 +71,7 @@ instance : Angle Float32 where
   pi := piF32
   radToDeg := fun x => x * (57.2957795130823208767981548141051703 : Float).toFloat32
   degToRad := fun x => x * (piF32 / (180.0 : Float).toFloat32)
-  -- computed in double and rounded once: within 1 ulp of `hypotf`
+  -- glibc `__hypotf`: computed in double (`sqrt((double) x * x + (double) y * y)`) and rounded once; 0 mismatches on 2520 cases
   hypot := fun a b =>
     let x := a.toFloat; let y := b.toFloat
     (Float.sqrt (x * x + y * y)).toFloat32
